@@ -72,6 +72,8 @@ type faultPlan struct {
 	sqlLeft  int
 	kinds    map[string]bool
 	disabled bool
+	// ambiguous: a COMMIT was executed and the connection dropped before the reply (current step)
+	ambiguous bool
 }
 
 func (fp *faultPlan) rpcHook(info *simnode.ReqInfo) simnode.Action {
@@ -99,6 +101,9 @@ func (fp *faultPlan) sqlHook(op *fakepg.Op) fakepg.Fault {
 	}
 	fp.sqlLeft--
 	k := []fakepg.FaultKind{fakepg.FError, fakepg.FDropBefore, fakepg.FDropAfter}[fp.r.Intn(3)]
+	if k == fakepg.FDropAfter && op.Kind == "commit" {
+		fp.ambiguous = true
+	}
 	fp.kinds["sql:"+k.String()+":"+op.Kind] = true
 	return fakepg.Fault{Kind: k}
 }
@@ -208,7 +213,13 @@ func c01Run(c *vk.Case) {
 			fp.mu.Unlock()
 			quiet = dis
 		}
+		fp.mu.Lock()
+		fp.ambiguous = false
+		fp.mu.Unlock()
 		res := env.Step(task)
+		fp.mu.Lock()
+		pm.ambiguousCommit = fp.ambiguous
+		fp.mu.Unlock()
 		steps++
 		c.Obs("steps", 1)
 		before := pm.pos
